@@ -70,7 +70,11 @@ func (d *uintDecoder) decodeStreamByte(s *Stream) ([]byte, error) {
 			s.cursor++
 			continue
 		case '0':
+			start := s.cursor
 			s.cursor++
+			if s.nonIntegerRest() {
+				return nil, d.typeError(s.buf[start:s.cursor], s.totalOffset())
+			}
 			return numZeroBuf, nil
 		case '1', '2', '3', '4', '5', '6', '7', '8', '9':
 			start := s.cursor
@@ -85,6 +89,9 @@ func (d *uintDecoder) decodeStreamByte(s *Stream) ([]byte, error) {
 					}
 				}
 				break
+			}
+			if s.nonIntegerRest() {
+				return nil, d.typeError(s.buf[start:s.cursor], s.totalOffset())
 			}
 			num := s.buf[start:s.cursor]
 			return num, nil
@@ -112,13 +119,22 @@ func (d *uintDecoder) decodeByte(buf []byte, cursor int64) ([]byte, int64, error
 			cursor++
 			continue
 		case '0':
+			start := cursor
 			cursor++
+			if isNonIntegerRest(buf[cursor]) {
+				end := nonIntegerEnd((*sliceHeader)(unsafe.Pointer(&buf)).data, cursor)
+				return nil, 0, d.typeError(buf[start:end], end)
+			}
 			return numZeroBuf, cursor, nil
 		case '1', '2', '3', '4', '5', '6', '7', '8', '9':
 			start := cursor
 			cursor++
 			for numTable[buf[cursor]] {
 				cursor++
+			}
+			if isNonIntegerRest(buf[cursor]) {
+				end := nonIntegerEnd((*sliceHeader)(unsafe.Pointer(&buf)).data, cursor)
+				return nil, 0, d.typeError(buf[start:end], end)
 			}
 			num := buf[start:cursor]
 			return num, cursor, nil
